@@ -403,3 +403,21 @@ Definition post_process_params (predictor colors bpc columns : option Z) : ppres
            end
          end
   end.
+
+(* ------------------------------------------------------------------ 10. cmap format 4 layout *)
+
+(* font/install.go:prepareCMapFormat4 on a subtable of [avail] bytes whose header says format, declared
+   length and segCountX2 (all uint16): None = ErrInvalidFontData, Some (size, segCount, endOff, startOff,
+   deltaOff, rangeOff) *)
+Definition c4_end_off : Z := 14%Z.
+Definition c4_start_off (n : Z) : Z := (c4_end_off + 2 * n + 2)%Z.       (* endOff + 2*segCount + 2 *)
+Definition c4_delta_off (n : Z) : Z := (c4_start_off n + 2 * n)%Z.        (* startOff + 2*segCount *)
+Definition c4_range_off (n : Z) : Z := (c4_delta_off n + 2 * n)%Z.        (* deltaOff + 2*segCount *)
+Definition cmap4_layout (avail format declared segx2 : Z) : option (Z * Z * Z * Z * Z * Z) :=
+  if (avail <? 16)%Z then None
+  else if negb (format =? 4)%Z then None
+  else if (declared <? 16)%Z then None
+  else if (avail <? declared)%Z then None
+  else if (segx2 =? 0)%Z || negb (segx2 mod 2 =? 0)%Z then None
+  else if (declared <? c4_range_off (segx2 / 2) + 2 * (segx2 / 2))%Z then None   (* requireSize(rangeOff+2*segCount) *)
+  else Some (declared, (segx2 / 2)%Z, c4_end_off, c4_start_off (segx2 / 2), c4_delta_off (segx2 / 2), c4_range_off (segx2 / 2)).
